@@ -86,7 +86,8 @@ def load_contracts(prop):
     import glob
     files = sorted(glob.glob(os.path.join(VERIF, "contracts", f"{prop}_*.py")))
     if not files:
-        raise SystemExit(f"no contracts for {prop}")
+        print(f"CHECKER-ERROR property={prop} no contracts for {prop}")
+        raise SystemExit(3)         # a checker error, never a verdict
     mods = []
     for f in files:
         modname = "contracts." + os.path.basename(f)[:-3]
